@@ -25,7 +25,9 @@ for mp in sorted(glob.glob(os.path.join(V, 'seeded', '*', 'meta.json'))):
     res = re.sub(r'\s+', ' ', m.get('checks_result', '')).replace('|', '/')
     missed = m.get('initially_missed')
     mtxt = 'no'
-    if missed:
+    if m.get('undecided_by_design'):
+        mtxt = '**still missed, by design**: ' + m['undecided_by_design']
+    elif missed:
         mtxt = ('yes' if missed is True else str(missed)) + ' → ' + m.get('strengthening', '')
     out.append(f"| {sid} | {m['property']} | {m['needs_to_manifest']} | {m['suite_with_patch'].split(' in ')[0]} | {res[:200]} | {mtxt.replace('|', '/')} |")
 seeds = '\n'.join(out)
